@@ -10,6 +10,7 @@ import (
 func init() {
 	vfHarnesses["H_creader"] = H_creader
 	vfHarnesses["H_life_w"] = H_life_w
+	vfHarnesses["H_life_wc"] = H_life_wc
 	vfHarnesses["H_life_r"] = H_life_r
 	vfHarnesses["H_life_w2"] = H_life_w2
 	vfHarnesses["H_dep"] = H_dep
@@ -92,13 +93,30 @@ func H_creader() {
 
 // H_life_w: a sequence of L calls on a Writer, each opcode chosen symbolically, compared after
 // every call with the reference model of the statement.
+// hLifeNum: concurrency level of the Writer in H_life_w (0 = sequential). On a concurrent
+// Writer the sink is only looked at when no library goroutine can be writing to it (after Close,
+// after Reset), and the sequential-only Flush clause is not asserted.
+var hLifeNum int
+
+// H_life_wc is H_life_w on a concurrent Writer (C17 "on sequential and concurrent objects").
+func H_life_wc() {
+	hLifeNum = vfParam("num")
+	H_life_w()
+	hLifeNum = 0
+}
+
 func H_life_w() {
 	L := vfParam("L")
 	bc0 := vfParam("bc") != 0
 	sinks := []*hSink{{failAt: -1}, {failAt: -1}, {failAt: -1}, {failAt: -1}, {failAt: -1}, {failAt: -1}}
 	cur := 0
 	zw := NewWriter(sinks[0])
-	vfAssert("w-initial-apply", zw.Apply(BlockSizeOption(Block64Kb), BlockChecksumOption(bc0), ChecksumOption(true), ConcurrencyOption(1)) == nil)
+	num := 1
+	conc := hLifeNum > 1
+	if conc {
+		num = hLifeNum
+	}
+	vfAssert("w-initial-apply", zw.Apply(BlockSizeOption(Block64Kb), BlockChecksumOption(bc0), ChecksumOption(true), ConcurrencyOption(num)) == nil)
 	// model
 	phase := 0 // 0 fresh (nothing written since Reset), 1 open, 2 closed
 	var accepted []byte
@@ -112,7 +130,12 @@ func H_life_w() {
 	for step := 0; step < L; step++ {
 		op := vfChoice("op", 7)
 		sink := sinks[cur]
-		before := len(sink.buf)
+		// quiet: no library goroutine can be touching the sink right now
+		quiet := !conc || phase != 1
+		before := 0
+		if quiet {
+			before = len(sink.buf)
+		}
 		switch op {
 		case 0: // Apply(BlockChecksumOption(!bc))
 			err := zw.Apply(BlockChecksumOption(!bc))
@@ -128,7 +151,9 @@ func H_life_w() {
 				vfAssert("w-apply-after-write-rejected", err != nil)
 				tainted = true
 			}
-			vfAssert("w-apply-emits-nothing", len(sink.buf) == before)
+			if quiet {
+				vfAssert("w-apply-emits-nothing", len(sink.buf) == before)
+			}
 		case 1: // Write
 			d := vfBytes("d", 2)
 			n, err := zw.Write(d)
@@ -170,6 +195,9 @@ func H_life_w() {
 			}
 			if tainted && err != nil {
 				failed = true
+			} else if phase != 2 && conc {
+				vfAssert("w-flush-ok", err == nil)
+				phase = 1
 			} else if phase != 2 {
 				vfAssert("w-flush-ok", err == nil)
 				// decodable prefix containing everything written so far
@@ -202,12 +230,16 @@ func H_life_w() {
 		case 5: // Reset(new sink)
 			cur++
 			zw.Reset(sinks[cur])
-			vfAssert("w-reset-no-access-old", len(sink.buf) == before)
+			if quiet {
+				vfAssert("w-reset-no-access-old", len(sink.buf) == before)
+			}
 			vfAssert("w-reset-no-access-new", len(sinks[cur].buf) == 0)
 			phase, accepted, mark, tainted, failed = 0, nil, 0, false, false
 		case 6: // Reset(same sink)
 			zw.Reset(sink)
-			vfAssert("w-reset-no-access", len(sink.buf) == before)
+			if quiet {
+				vfAssert("w-reset-no-access", len(sink.buf) == before)
+			}
 			phase, accepted, mark, tainted, failed = 0, nil, len(sink.buf), false, false
 		}
 	}
